@@ -15,6 +15,8 @@ def run(chk):
                        "single faults (thorough: pairs); 1024-bit keys"]
     cfg = "Issuance.mc.thorough.cfg" if T == "thorough" else "Issuance.mc.cfg"
     g = vplib.tlc_mc("IssuanceGen", cfg, workers=1, timeout=600)
+    if T == "thorough":
+        vplib.coverage_check(chk, "IssuanceGen", "Issuance.mc.cfg", workers=1, timeout=600)
     cases = sorted(set(g.tagged_raw_json("C")))
     chk.add_tlc(g, "IssuanceGen", cfg, "Integrity, Complete, RejectIsError; %d cases" % len(cases))
     if len(cases) < 300:
